@@ -18,6 +18,7 @@ macro_rules! reserve_model {
 }
 reserve_model!(reserve_256, 256);
 reserve_model!(reserve_512, 512);
+reserve_model!(reserve_960, 960);
 reserve_model!(reserve_1k, 1024);
 reserve_model!(reserve_2k, 2048);
 reserve_model!(reserve_4k, 4096);
